@@ -7,6 +7,7 @@ cond (prefix): `A col op const` | `O` | `& x y` | `| x y`.
 -/
 import OG.C20.Model
 import OG.C20.Skip
+import OG.C20.Seq
 import OG.C20.SkipIdx
 import OG.C20.TimeCluster
 import OG.C20.SkipText
@@ -406,6 +407,15 @@ def step (line : String) : String :=
     match coarse.toNat?, minMarks.toNat?, parseCond tys cond, (marks.splitOn ";").mapM (parseMark tys) with
     | some co, some mm, some (c, []), some ms =>
       showRanges (scan (fixed == "1") dkDisc c (hasKey == "1") (tys.map fun _ => false) ms co mm)
+    | _, _, _, _ => "bad-op"
+  | "scanseq" :: fixed :: types :: coarse :: minMarks :: hasKey :: files :: cond =>
+    -- one reader (coarse, minMarks) and one key condition over the files in order
+    let tys := types.toList.map (· == 'i')
+    match coarse.toNat?, minMarks.toNat?, parseCond tys cond,
+      (files.splitOn "/").mapM (fun f => (f.splitOn ";").mapM (parseMark tys)) with
+    | some co, some mm, some (c, []), some fs =>
+      let (_, answers) := scanSeq (fixed == "1") dkDisc c (hasKey == "1") (tys.map fun _ => false) ⟨co, mm⟩ fs
+      "seq " ++ " | ".intercalate (answers.map showRanges)
     | _, _, _, _ => "bad-op"
   | toks => (SkipDrv.stepSkip toks).getD "bad-op"
 
